@@ -143,6 +143,12 @@ impl Verify for StreamInfo {
         }
         verify_range!("sample_rate", self.sample_rate(), ..=96_000)?;
         verify_range!("channels", self.channels(), 1..=8)?;
+        // `verify_bps` admits MAX_BITS_PER_SAMPLE + 1 for side channels; a stream cannot.
+        verify_range!(
+            "bits_per_sample",
+            self.bits_per_sample(),
+            ..=(crate::constant::MAX_BITS_PER_SAMPLE)
+        )?;
         verify_bps!("bits_per_sample", self.bits_per_sample())
     }
 }
